@@ -261,7 +261,7 @@ theorem itemInv_clientStep {cfg : Cfg} {s s' : State} {t : Tid} {ch : Choice}
     · intro k' e he
       rcases stDelStart_store s t k c with e1 | e1
       · rw [e1] at he; exact Or.inl he
-      · rw [e1] at he; exact Or.inl (storeDel_sub he)
+      · rw [e1] at he; exact Or.inl (storeDel_sub_f he)
     · intro t'
       by_cases e : t' = t
       · subst e
@@ -525,7 +525,7 @@ theorem itemInv_applierStep {cfg : Cfg} {s s' : State} {ch : Choice}
     split at hr
     · simp at hr
     · simp only [Option.some.injEq] at hr; subst hr
-      refine h.mk' hl (fun k' e he => Or.inl (storeDel_sub he)) (pend_sub (fun e he => ?_))
+      refine h.mk' hl (fun k' e he => Or.inl (storeDel_sub_f he)) (pend_sub (fun e he => ?_))
         (fun t => Or.inl rfl) (fun i vs ok ha => by cases ha) (fun i ha => by cases ha)
       simpa [pending, queue, hpc, appElem] using he
   case victimEvict =>
@@ -546,7 +546,7 @@ theorem itemInv_applierStep {cfg : Cfg} {s s' : State} {ch : Choice}
     intro i hpc _ evs hl
     have hp : pending s = .item i :: pending (apTombPolicy s i) := by
       simp [pending, queue, hpc, apTombPolicy, appElem]
-    exact h.mk' hl (fun k e he => Or.inl (storeDel_sub he))
+    exact h.mk' hl (fun k e he => Or.inl (storeDel_sub_f he))
       (pend_sub (fun e he => by rw [hp]; exact List.mem_cons_of_mem _ he))
       (fun t => Or.inl rfl) (fun i vs ok ha => by cases ha) (fun i ha => by cases ha)
   case tombStore =>
